@@ -3,6 +3,7 @@ import OV.Model.C05Unit
 import OV.Model.C05Shape
 import OV.Model.C05Linalg
 import OV.Model.C05More
+import OV.Model.C09Shape
 import OV.Drivers.Loop
 /-! Line-protocol driver for C05: `C05 <family> key=value …` → `nofire` | `raise` | `fire <replacement> hyp=<0|1>`.
 `hyp` is the model's own side condition under which the `_sound`/`_partial` theorem of the family applies
@@ -221,17 +222,22 @@ def handle1 (args : List String) : String :=
     let p : Linalg.BatchNorm := { inits := flags, sharedOutside := getBool a "shared", inChannelsModGroup := getNat a "mod", gemmBetaIsOne := getS a "beta1" != "0", trainingMode := getBool a "train" }
     fireIf (Linalg.batchNormCheck p) true
   | "expandbin" :: a =>
-    (match getOptInts a "e" with
-     | some e =>
-       let xr := ((getShape a "x").map List.length).getD 0
-       let yr := ((getShape a "y").map List.length).getD 0
-       -- PRelu's slope must broadcast *to* X: removing the Expand on X is invalid when y supplies a dimension (C05-N3c)
-       let xrun := ((getOptInts a "xr").getD []).map Int.toNat
-       let yrun := ((getShape a "y").getD []).filterMap Shape.Dim.nat?
-       let preluBad := getBool a "prelu1" && Shape.specBroadcast xrun yrun != some xrun
-       -- no ExpandFirst rule exists for PRelu
-       fireIf (!getBool a "prelu1" && Linalg.expandRemovableConst (getShape a "x") (getShape a "y") e) (!preluBad)
-     | none => "badline")
+    -- all three strategies of `_check_expand_removable`: the shared model `OV.C09.expandRemovable` (restated once, by C09);
+    -- for a constant target it is cross-checked against C05's own strategy-1 model (the one the value theorem talks about)
+    let c9 (t : String) : OV.C09.Dim := if t == "?" then .unknown else match t.toInt? with | some n => .known n | none => .sym t
+    let c9shape (k : String) : Option OV.C09.Shape :=
+      match getS a k with
+      | "-" => none
+      | "." => some []
+      | sh => some ((sh.splitOn ",").map c9)
+    let const := getOptInts a "e"
+    let v := OV.C09.expandRemovable (c9shape "x") (c9shape "y") const (c9shape "eo") (c9shape "bo")
+    let side : Nat := if getBool a "second" then 1 else 0
+    let fires := OV.C09.expandRuleFires (getS a "op") side true v
+    let agree := match const with
+      | some e => Linalg.expandRemovableConst (getShape a "x") (getShape a "y") e == v.removable
+      | none => true
+    if !agree then "modelsdisagree" else fireIf fires true
   | "mmreshape" :: a =>
     let p : More.MatmulReshape := { a := getShape a "a", b := getShape a "b", shapeC := getOptInts a "c", shapeCRank1 := getS a "c1" != "0" }
     fireIf (More.matmulReshapeCheck p) true
